@@ -141,12 +141,18 @@ def free_vars_env(obs, rng, lo=0.5, hi=1.5, fixed=None):
     return env
 
 
-def witness(ob, rng, tries=40, box=(0.5, 1.5), fixed=None):
+def witness(ob, rng, tries=40, box=(0.5, 1.5), fixed=None, nominal=None):
     """Find a concrete point where the obligation's two sides differ numerically and the assumptions hold:
     first the solver's own model, then pseudo-random points (the solver's sat verdict established existence;
     this only selects a well-conditioned witness for replay)."""
     cands = []
     menv = oblig.model_env(ob)
+    if nominal:
+        # sane nominal configuration (e.g. a real wing mesh), jittered so that special positions do not hide a difference
+        for t in range(6):
+            e = FillEnv({k: (v + (0.0 if t == 0 else 0.05 * (rng.random() - 0.5))) for k, v in nominal.items()})
+            e.update(fixed or {})
+            cands.append(e)
     if menv:
         base = free_vars_env([ob], rng, *box, fixed=fixed)
         base.update(menv)
@@ -172,7 +178,7 @@ def witness(ob, rng, tries=40, box=(0.5, 1.5), fixed=None):
 
 
 def run_obligations(rep, group, obs, timeout, replay=None, family=None, lw=None, levels=(1, 2), info=None,
-                    max_replays=2, box=(0.5, 1.5), fixed=None, cut_threshold=6, relate=None, relate_assume=()):
+                    max_replays=2, box=(0.5, 1.5), fixed=None, cut_threshold=6, relate=None, relate_assume=(), nominal=None):
     """Discharge, record, replay candidates.  replay(ob, env) -> (reproduced: bool|None, what: str).
     relate: list of positive scale symbols rho; sqrt-atom relation lemmas n' = rho n are proved first and
     used as hypotheses (the lemmas are solver obligations of the same run)."""
@@ -200,7 +206,7 @@ def run_obligations(rep, group, obs, timeout, replay=None, family=None, lw=None,
         if tried.get(fam, 0) >= max_replays:
             continue
         tried[fam] = tried.get(fam, 0) + 1
-        env = witness(o, rng, box=box, fixed=fixed)
+        env = witness(o, rng, box=box, fixed=fixed, nominal=nominal)
         if env is None:
             rep.not_reproduced.append({"id": o.id, "why": "no numeric witness found for the solver's sat answer"})
             continue
